@@ -77,6 +77,8 @@ struct Seg {
     text: String,
     /// expansion when rendered (None = line break)
     out: Option<String>,
+    /// the expansion is followed by a line break (a brace followed by a newline stands for itself)
+    brk_after: bool,
 }
 
 fn pad(content: &str, width: usize, align: char) -> String {
@@ -96,13 +98,14 @@ fn pad(content: &str, width: usize, align: char) -> String {
 fn segments() -> Vec<Seg> {
     let mut v = Vec::new();
     for lit in ["x", "é", "x ", " "] {
-        v.push(Seg { text: lit.into(), out: Some(lit.into()) });
+        v.push(Seg { text: lit.into(), out: Some(lit.into()), brk_after: false });
     }
-    v.push(Seg { text: "{{".into(), out: Some("{".into()) });
-    v.push(Seg { text: "}}".into(), out: Some("}".into()) });
-    v.push(Seg { text: "{ ".into(), out: Some("{ ".into()) });
-    v.push(Seg { text: "{\t".into(), out: Some(format!("{{{}", " ".repeat(8))) });
-    v.push(Seg { text: "\n".into(), out: None });
+    v.push(Seg { text: "{{".into(), out: Some("{".into()), brk_after: false });
+    v.push(Seg { text: "}}".into(), out: Some("}".into()), brk_after: false });
+    v.push(Seg { text: "{ ".into(), out: Some("{ ".into()), brk_after: false });
+    v.push(Seg { text: "{\t".into(), out: Some(format!("{{{}", " ".repeat(8))), brk_after: false });
+    v.push(Seg { text: "{\n".into(), out: Some("{".into()), brk_after: true });
+    v.push(Seg { text: "\n".into(), out: None, brk_after: false });
     for (key, content) in [("k", "VAL"), ("zz", ""), ("msg", "M")] {
         for (opt, width, align) in [
             ("", 0usize, '<'),
@@ -116,7 +119,7 @@ fn segments() -> Vec<Seg> {
             (":5.red/blue", 5, '<'),
             (":05", 5, '<'),
         ] {
-            v.push(Seg { text: format!("{{{key}{opt}}}"), out: Some(pad(content, width, align)) });
+            v.push(Seg { text: format!("{{{key}{opt}}}"), out: Some(pad(content, width, align)), brk_after: false });
         }
     }
     v
@@ -153,6 +156,9 @@ fn fidelity(tier: Tier, shard: Shard, stats: &mut Stats) {
                 Some(o) => lines.last_mut().unwrap().push_str(o),
                 None => lines.push(String::new()),
             }
+            if segs[i].brk_after {
+                lines.push(String::new());
+            }
         }
         let mk = |class: String, detail: String| Violation { class, config: "fidelity".into(), history: vec![format!("{:?}", tpl)], detail };
         let style = match catch(|| ProgressStyle::with_template(&tpl)) {
@@ -177,7 +183,7 @@ fn fidelity(tier: Tier, shard: Shard, stats: &mut Stats) {
             alt.pop();
         }
         if got != lines && got != alt {
-            let class = if idx.iter().any(|&i| segs[i].text.starts_with("{ ") || segs[i].text.starts_with("{\t")) {
+            let class = if idx.iter().any(|&i| segs[i].text.starts_with("{ ") || segs[i].text.starts_with("{\t") || segs[i].text.starts_with("{\n")) {
                 "fidelity: rendering differs from the derivation (template contains '{'+whitespace)"
             } else {
                 "fidelity: rendering differs from the in-order concatenation of literals and expansions"
